@@ -274,7 +274,7 @@ func Validate(f *File) []Issue {
 			}
 		}
 		for _, g := range groups {
-			if !seenSO[g.op] && g.op < 0x80 {
+			if !seenSO[g.op] && g.op <= OpDataEnd {
 				issue(&out, "pointer:summary_offset.missing", "summary group %s at %d has no SummaryOffset record", OpName(g.op), g.start)
 			}
 		}
